@@ -186,6 +186,9 @@ def cases(unit):
             for flags in itertools.product([0, 1], repeat=n):
                 for o in ('map', 'scan'):
                     yield {'fam': 'late', 'op': o, 'handler': 'router', 'flags': list(flags)}
+                if n <= 3:
+                    # the stream itself fails (on_error of the source): the dead letter receives that exception last and completes
+                    yield {'fam': 'late', 'op': 'map', 'handler': 'router', 'flags': list(flags), 'end': 'error'}
         return
     if unit['fam'] == 'through':
         for n in range(1, unit['L'] + 1):
@@ -400,13 +403,19 @@ def run_late(case, acc):
                      on_completed=lambda: dead.__setitem__('completed', dead['completed'] + 1))
     for x in items:
         src.on_next(x)
-    src.on_completed()
+    boom = None
+    if case.get('end') == 'error':
+        boom = RuntimeError('source failed')
+        boom.item = 'source-failure'
+        src.on_error(boom)
+    else:
+        src.on_completed()
     acc.evals += 1
     acc.events += len(items) + 1
     acc.traces += 1
     acc.count('dead_letter_subscribed_after_the_pipeline')
     out = []
-    want_dead = [x for x in items if x % 10 == 1]
+    want_dead = [x for x in items if x % 10 == 1] + (['source-failure'] if boom else [])
     want_main = []
     for g in (0, 1):
         n_ok = [x for x in items if x // 100 % 10 == g and x % 10 != 1]
@@ -420,7 +429,12 @@ def run_late(case, acc):
         if x % 10 != 1:
             counts[g] = counts.get(g, 0) + 1
             exp.append(counts[g])
-    if sink.error is not None or sink.completed != 1:
+    if boom is not None:
+        if sink.error is not boom or sink.completed:
+            out.append(viol(case, 'source-failure-not-surfaced-as-on_error', {'items': items, 'status': sink.status()}))
+        elif sink.items != exp:
+            out.append(viol(case, 'main-output-before-source-failure-' + str(harness.diff_kind(exp, sink.items)), {'items': items, 'expected': exp, 'observed': sink.items}))
+    elif sink.error is not None or sink.completed != 1:
         out.append(viol(case, 'late-dead-letter-main-stream-not-completed', {'items': items, 'error': repr(sink.error)}))
     elif sink.items != exp:
         out.append(viol(case, 'late-dead-letter-main-output-' + str(harness.diff_kind(exp, sink.items)), {'items': items, 'expected': exp, 'observed': sink.items}))
